@@ -51,11 +51,19 @@ def derivative(poly: PolyLike, *diffvars: Union[ndpoly, str, int]) -> ndpoly:
             idx = poly.names.index(names[0])
 
         exponents = poly.exponents
+        # terms not involving the variable vanish; dropping them here
+        # keeps the unsigned exponents from wrapping around below zero.
+        keep = exponents[:, idx] > 0
         coefficients = [
             (exponent[idx] * coefficient.T).T
-            for exponent, coefficient in zip(exponents, poly.coefficients)
+            for exponent, coefficient, keep_ in zip(exponents, poly.coefficients, keep)
+            if keep_
         ]
+        exponents = exponents[keep]
         exponents[:, idx] -= 1
+        if not coefficients:
+            exponents = numpy.zeros((1, len(poly.names)), dtype="uint32")
+            coefficients = [numpy.zeros(poly.shape, dtype=poly.dtype)]
         assert not numpy.any(exponents < 0)
 
         poly = numpoly.ndpoly.from_attributes(
